@@ -26,12 +26,12 @@ BOUNDS_NOTE = "see key 'merged' for the all-masks-in-one-query cases"
 BOUNDS = {
     "quick": "all masks (>=1 unmasked pixel) of every shape with H*W <= 9 plus 3x4, 4x3, 2x5, 5x2 (masks touching the array boundary, holes, "
              "several components included); kernel shapes (1,1),(1,3),(3,1),(3,3),(3,5),(5,3); origin and pixel scales of the grid views symbolic reals",
-    "thorough": "all masks of every shape with H*W <= 16; same kernels plus (5,5)",
+    "thorough": "all masks of every shape with H*W <= 14 plus 3x5, 5x3, 4x4; same kernels plus (5,5)",
     "merged": "additionally, with the mask bits left symbolic (merge interpreter over the kernels' source, ONE path = all 2^(H*W) masks): blurring "
               "mask incl. exception condition for shapes up to 5x5 (quick) / 6x6 (thorough), kernels (3,3),(1,3),(3,5); edge predicate + edge index "
-              "list for 3x4 (quick) / up to 4x4, 3x5, 5x4 (thorough); border index list for 2x4 (quick) / 3x3, 3x4 (thorough)",
+              "list for 3x4 (quick) / up to 4x4, 3x5 (thorough); border index list for 2x4 (quick) / 3x3 (thorough); larger merged shapes did not finish inside the budget",
 }
-OUTSIDE = ["shapes with more than 16 pixels", "kernel axes longer than 5"]
+OUTSIDE = ["shapes with more than 14 pixels other than 3x5, 5x3, 4x4", "kernel axes longer than 5"]
 STUBS = []
 ASSUMPTIONS = ["mask bits explored by forking (one path per mask); origin / pixel scales are solver variables (scales > 0)"]
 EXPLORER_OPTS = {"max_paths": 140000}
@@ -183,15 +183,17 @@ def _cases(tier):
             if H * W <= cap:
                 if tier == "quick" and H * W > 9 and (H, W) not in ((3, 4), (4, 3), (2, 5), (5, 2)):
                     continue
+                if tier != "quick" and H * W > 14 and (H, W) not in ((3, 5), (5, 3), (4, 4)):
+                    continue
                 n = H * W
                 out.append(("case_sets", {"H": H, "W": W, "kernels": ks}, {"split": 0 if n < 10 else (3 if n <= 12 else 6)}))
     out.sort(key=lambda c: -(c[1]["H"] * c[1]["W"]))
     mk = [(3, 3), (1, 3), (3, 5)]
     for (H, W) in ([(4, 4), (3, 5), (5, 5)] if tier == "quick" else [(4, 4), (3, 5), (5, 5), (6, 5), (6, 6), (4, 7)]):
         out.append(("case_merged", {"H": H, "W": W, "kernels": mk, "parts": ["blurring"]}, {"timeout_ms": 60000}))
-    for (H, W) in ([(3, 4)] if tier == "quick" else [(3, 4), (4, 4), (3, 5), (5, 4)]):
-        out.append(("case_merged", {"H": H, "W": W, "kernels": mk, "parts": ["edge"]}, {"timeout_ms": 60000 if tier == "quick" else 300000}))
-    for (H, W) in ([(2, 4)] if tier == "quick" else [(3, 3), (2, 4), (3, 4)]):
+    for (H, W) in ([(3, 4)] if tier == "quick" else [(3, 4), (4, 4), (3, 5)]):
+        out.append(("case_merged", {"H": H, "W": W, "kernels": mk, "parts": ["edge"]}, {"timeout_ms": 60000 if tier == "quick" else 180000}))
+    for (H, W) in ([(2, 4)] if tier == "quick" else [(3, 3), (2, 4)]):
         out.append(("case_merged", {"H": H, "W": W, "kernels": mk, "parts": ["border"]}, {"timeout_ms": 60000 if tier == "quick" else 300000}))
     return out
 
